@@ -104,6 +104,8 @@ func (ex *Exec) callLit(fv *FuncVal, args []Value, st *State, call ast.Node) []V
 	sig := fv.Info.TypeOf(fv.Lit).(*types.Signature)
 	f := &Frame{info: fv.Info, pkg: fv.Pkg, sig: sig, lit: true, entry: ex.frame().entry, oldSt: ex.frame().oldSt, fn: ex.frame().fn}
 	base := len(st.pc)
+	before := envKeys(st)
+	defer dropNewBindings(st, before)
 	ex.pushFrame(f, st)
 	f.results = ex.bindParams(sig, fv.Lit.Type, nil, fv.Info, nil, args, st)
 	ex.execBlock(fv.Lit.Body.List, st)
@@ -148,6 +150,8 @@ func (ex *Exec) callInline(fi *FuncInfo, recv *Value, args []Value, st *State, c
 	sig := fi.Obj.Type().(*types.Signature)
 	f := &Frame{fn: fi, info: fi.Pkg.TypesInfo, pkg: fi.Pkg.Types, sig: sig, entry: map[string]Value{}}
 	base := len(st.pc)
+	before := envKeys(st)
+	defer dropNewBindings(st, before)
 	ex.pushFrame(f, st)
 	f.results = ex.bindParams(sig, fi.Decl.Type, fi.Decl.Recv, fi.Pkg.TypesInfo, recv, args, st)
 	f.oldSt = st.clone()
@@ -456,7 +460,8 @@ func (ex *Exec) frameCheckRegion(t types.Type, ref *Term, st *State, n ast.Node)
 	if !ok {
 		return
 	}
-	allowed := []*Term{mkCmp("lt", st.alloc0, ref)}
+	// a nil slice has no region: nothing can be written through it
+	allowed := []*Term{mkCmp("lt", st.alloc0, ref), mkEq(ref, mkInt(sortRef, 0))}
 	for _, l := range locs {
 		if l.kind == "region" && typeKey(l.t) == typeKey(t) {
 			allowed = append(allowed, mkEq(ref, l.ref))
@@ -680,7 +685,18 @@ func (ex *Exec) evalBuiltin(name string, call *ast.CallExpr, st *State) []Value 
 
 func (ex *Exec) doPanic(st *State, n ast.Node) {
 	if ex.spec > 0 {
-		st.dead = true
+		// inside a specification a panicking call yields an arbitrary value (never a silently dropped path)
+		f := ex.frame()
+		if f.sig == nil || f.lit && f.sig == nil {
+			st.dead = true
+			return
+		}
+		var vals []Value
+		for i := 0; i < f.sig.Results().Len(); i++ {
+			v := freshValue("panicked", f.sig.Results().At(i).Type())
+			vals = append(vals, v)
+		}
+		ex.doReturn(st, vals)
 		return
 	}
 	f0 := ex.frames[0]
@@ -732,7 +748,7 @@ func (ex *Exec) evalAppend(call *ast.CallExpr, st *State) Value {
 		ref := grow.newRef()
 		ncap := freshVar("newcap", sortInt)
 		grow.assume(mkCmp("le", newLen, ncap))
-		grow.assume(mkCmp("le", mkConv(ncap, sortMath), mkInt(sortMath, 1<<40)))
+		grow.assume(mkCmp("le", ncap, mkInt(sortInt, 1<<40)))
 		ex.initRegion(grow, et, ref)
 		ex.copyRange(grow, et, ref, mkInt(sortInt, 0), s.L[".ref"], s.L[".off"], s.L[".len"])
 		if !isStr {
@@ -778,7 +794,7 @@ func (ex *Exec) evalAppend(call *ast.CallExpr, st *State) Value {
 		ref := grow.newRef()
 		ncap := freshVar("newcap", sortInt)
 		grow.assume(mkCmp("le", newLen, ncap))
-		grow.assume(mkCmp("le", mkConv(ncap, sortMath), mkInt(sortMath, 1<<40)))
+		grow.assume(mkCmp("le", ncap, mkInt(sortInt, 1<<40)))
 		ex.initRegion(grow, et, ref)
 		ex.copyRange(grow, et, ref, mkInt(sortInt, 0), s.L[".ref"], s.L[".off"], s.L[".len"])
 		for i, e := range elems {
@@ -924,4 +940,21 @@ func (ex *Exec) loadLE(st *State, ref, base *Term, t types.Type, n ast.Node) Val
 		return Value{}
 	}
 	return load(t, 0)
+}
+
+func envKeys(st *State) map[types.Object]bool {
+	m := make(map[types.Object]bool, len(st.env))
+	for k := range st.env {
+		m[k] = true
+	}
+	return m
+}
+
+// dropNewBindings removes the callee's parameters and locals after an inlined call (lexical scoping).
+func dropNewBindings(st *State, before map[types.Object]bool) {
+	for k := range st.env {
+		if !before[k] {
+			delete(st.env, k)
+		}
+	}
 }
